@@ -171,6 +171,9 @@ Examples:
 			recoveredResults, recoveryErr := searchRecovery.RecoverFromSearchFailure(query, nil, db)
 			if recoveryErr == nil && len(recoveredResults) > 0 {
 				results = recoveredResults
+				if len(results) > searchOptions.Limit {
+					results = results[:searchOptions.Limit]
+				}
 			}
 		}
 
